@@ -10,7 +10,15 @@ Next ==
   \/ Mode = "vine" /\ \E i \in DOMAIN F : RemoveMaximalCell(i)
 Spec == Init /\ [][Next]_<<F, act>>
 View == F
-EmitState == PrintT(<<"STATE", ToJson([id |-> [f |-> FJ(F)], obs |-> Obs(F)])>>)
+CONSTANT WithReps
+ObsR(G) == IF WithReps THEN [n |-> Len(G), dims |-> [i \in DOMAIN G |-> G[i].dim], bars_set |-> BarsJ(G),
+                             checks_failed |-> <<>>, reps_set |-> RepsJ(G)]
+           ELSE Obs(G)
+EmitState == PrintT(<<"STATE", ToJson([id |-> [f |-> FJ(F)], obs |-> ObsR(F)])>>)
+(* every bar has a representative, and the number of bars alive at j in dimension k is the Betti number *)
+InvRepsExist == WithReps => \A b \in Bars(F, P) : RepsOf(F, b, FALSE) # {} /\ RepsOf(F, b, TRUE) # {}
+InvAliveIsBetti == \A j \in DOMAIN F : \A k \in 0..MaxD :
+                     Cardinality({b \in AliveAt(F, j) : b.dim = k}) = DefBetti(F, k, j, P)
 EmitEdge  == PrintT(<<"EDGE", ToJson([from |-> [f |-> FJ(F)], act |-> act', to |-> [f |-> FJ(F')]])>>)
 
 InvWellFormed == WellFormed(F, P)
